@@ -135,6 +135,7 @@ type verifSink struct {
 var verifErrSink = io.ErrClosedPipe
 
 func (s *verifSink) Write(p []byte) (int, error) {
+	vrt.Jitter() // native replays: vary how long the drain goroutine is held up
 	i := s.writes
 	s.writes++
 	if s.failAt >= 0 && i >= s.failAt && (i == s.failAt || !s.once) {
@@ -246,6 +247,7 @@ func VerifH_bgzf_deterministic() {
 	MAXW := vrt.Param("MAXW", 2*BlockSize+2)
 	ncalls := vrt.Choice("ncalls", CALLS+1)
 	for i := 0; i < ncalls; i++ {
+		vrt.Jitter() // native replays: vary the spacing of the API calls
 		switch vrt.Choice("call", 3) {
 		case 0:
 			n := verifLen("wlen", MAXW)
@@ -271,16 +273,25 @@ func VerifH_bgzf_durable() {
 	wc := vrt.Param("wc", 1)
 	var written []byte
 	sink := &verifSink{failAt: -1}
+	// The sink is written from the library's goroutines: the observations are accumulated
+	// there and asserted on the harness goroutine (a failed assertion is a panic, which a
+	// native replay can only catch on the harness goroutine).
+	wholeBlocks, inOrder := true, true
 	sink.onWrite = func(s *verifSink) {
 		dec, _, ok := verifDecoded(s.data)
-		vrt.Assert(ok, "delivered-bytes-are-whole-blocks")
-		vrt.Assert(verifIsPrefix(dec, written), "delivered-blocks-decode-to-prefix-in-write-order")
+		wholeBlocks = vrt.And(wholeBlocks, ok)
+		inOrder = vrt.And(inOrder, verifIsPrefix(dec, written))
+	}
+	observed := func() {
+		vrt.Assert(wholeBlocks, "delivered-bytes-are-whole-blocks")
+		vrt.Assert(inOrder, "delivered-blocks-decode-to-prefix-in-write-order")
 	}
 	w := NewWriter(sink, wc)
 	CALLS := vrt.Param("CALLS", 2)
 	MAXW := vrt.Param("MAXW", 2*BlockSize+2)
 	ncalls := vrt.Choice("ncalls", CALLS+1)
 	for i := 0; i < ncalls; i++ {
+		vrt.Jitter() // native replays: vary the spacing of the API calls
 		switch vrt.Choice("call", 2) {
 		case 0:
 			n := verifLen("wlen", MAXW)
@@ -292,6 +303,7 @@ func VerifH_bgzf_durable() {
 			before := len(written)
 			vrt.Assert(w.Flush() == nil, "Flush-no-error")
 			vrt.Assert(w.Wait() == nil, "Wait-no-error")
+			observed()
 			dec, _, ok := verifDecoded(sink.data)
 			vrt.Assert(ok, "after-Flush+Wait-whole-blocks")
 			vrt.Assert(len(dec) == before, "Flush+Wait-makes-everything-written-durable")
@@ -299,6 +311,7 @@ func VerifH_bgzf_durable() {
 		}
 	}
 	vrt.Assert(w.Close() == nil, "Close-no-error")
+	observed()
 	dec, _, ok := verifDecoded(sink.data)
 	vrt.Assert(ok, "after-Close-whole-blocks")
 	vrt.Assert(len(dec) == len(written) && verifIsPrefix(dec, written), "Close-makes-everything-durable")
